@@ -40,11 +40,86 @@ def run(repo: Repo, rep, tier: str):
     proj = repo.cls("Project", module="rv.project")
     fn = inline.flatten(repo, proj, repo.own_method(proj, "connect"))
     rep.func("rv.project.Project.connect")
+    fn = unmemoize_operand_lookups(fn)
     connect_rules(repo, rep, "C07", proj, fn)
     optional_index_tests(repo, rep, "C07", proj, fn)
     operator_rules(repo, rep, "C07")
     rep.count("files_in_scope", repo.consult_all())
     census_rule(repo, rep, "C07")
+
+
+def unmemoize_operand_lookups(fn: ast.FunctionDef) -> ast.FunctionDef:
+    """`L = None` in the body of the outer operand loop and `if L is None: L = E` inside the inner one, E a look-up that does not
+    depend on anything the inner loop changes (`self.module_index(from_module)`, `from_module.out_links`): the value is the same
+    in every inner iteration, so the guard only saves work.  Read as `L = E` in every iteration (the form the rules follow)."""
+    import copy as _copy
+    loops, _ = operand_loops(fn)
+    if len(loops) < 2:
+        return fn
+    new = _copy.deepcopy(fn)
+    loops, _ = operand_loops(new)
+    outer, inner = loops[-2], loops[-1]
+    resets: Dict[str, ast.stmt] = {}
+    for st in outer.body:
+        if st is inner:
+            break
+        if isinstance(st, ast.Assign) and isinstance(st.value, ast.Constant) and st.value.value is None and all(isinstance(t, ast.Name) for t in st.targets):
+            for t in st.targets:
+                resets[t.id] = st
+    if not resets:
+        return fn
+    inner_assigned = {n.id for b in inner.body for n in ast.walk(b) if isinstance(n, ast.Name) and isinstance(n.ctx, (ast.Store, ast.Del))} | \
+        {n.id for n in ast.walk(inner.target) if isinstance(n, ast.Name)}
+
+    def pure_invariant(e: ast.expr) -> bool:
+        for x in ast.walk(e):
+            if isinstance(x, ast.Call) and not (isinstance(x.func, ast.Attribute) and norm(x.func) == "self.module_index") and norm(x.func) != "len":
+                return False
+            if isinstance(x, ast.Name) and isinstance(x.ctx, ast.Load) and x.id in inner_assigned - set(resets):
+                return False
+            if isinstance(x, (ast.Lambda, ast.Yield, ast.Await, ast.NamedExpr, ast.GeneratorExp, ast.ListComp)):
+                return False
+        return True
+    done: Set[str] = set()
+    bad = False
+
+    def rewrite(stmts: List[ast.stmt]) -> List[ast.stmt]:
+        nonlocal bad
+        out: List[ast.stmt] = []
+        for st in stmts:
+            if isinstance(st, ast.If) and not st.orelse and isinstance(st.test, ast.Compare) and len(st.test.ops) == 1 and isinstance(st.test.ops[0], ast.Is) \
+                    and isinstance(st.test.left, ast.Name) and st.test.left.id in resets and isinstance(st.test.comparators[0], ast.Constant) \
+                    and st.test.comparators[0].value is None \
+                    and all(isinstance(b, ast.Assign) and len(b.targets) == 1 and isinstance(b.targets[0], ast.Name) and b.targets[0].id in resets
+                            and pure_invariant(b.value) for b in st.body) and any(b.targets[0].id == st.test.left.id for b in st.body):
+                out.extend(st.body)
+                done.update(b.targets[0].id for b in st.body)
+                continue
+            for fld in ("body", "orelse", "finalbody"):
+                sub = getattr(st, fld, None)
+                if isinstance(sub, list) and sub and isinstance(sub[0], ast.stmt):
+                    setattr(st, fld, rewrite(sub))
+            if isinstance(st, ast.Try):
+                for h in st.handlers:
+                    h.body = rewrite(h.body)
+            out.append(st)
+        return out
+    inner.body = rewrite(inner.body)
+    if not done:
+        return fn
+    # every memo that was reset must have been rewritten, and must not be assigned anywhere else in the inner loop
+    for nm in done:
+        n_assign = sum(1 for b in inner.body for n in ast.walk(b) if isinstance(n, ast.Name) and n.id == nm and isinstance(n.ctx, ast.Store))
+        if n_assign != 1:
+            return fn
+    for nm in done:
+        st = resets[nm]
+        st.targets = [t for t in st.targets if t.id != nm]
+    outer.body = [st for st in outer.body if not (isinstance(st, ast.Assign) and not st.targets)]
+    ast.fix_missing_locations(new)
+    from .. import inline
+    inline.number(new)
+    return new
 
 
 def _optional_index_method(repo: Repo, name: str) -> Optional[str]:
@@ -149,7 +224,7 @@ def ownership_refusal(repo: Repo, rep, P: str):
     """R4 alone (shared with C17): both operands are looked up in this project's module list before any link table is touched."""
     from .. import inline
     proj = repo.cls("Project", module="rv.project")
-    fn = inline.flatten(repo, proj, repo.own_method(proj, "connect"))
+    fn = unmemoize_operand_lookups(inline.flatten(repo, proj, repo.own_method(proj, "connect")))
     loops, params = operand_loops(fn)
     if not loops:
         rep.inconclusive(f"{P}.R4", f"{proj.file.rel}:Project.connect", "", "no operand loops", proj.file.rel)
@@ -715,7 +790,7 @@ def _unwrap_rule(rep, P, construct, rel, fn):
     if len(operand_vars) < 2:
         rep.inconclusive(f"{P}.R5", construct, "", "operand loops not found", f"{rel}:{fn.lineno}")
         return
-    body = loops[-1]
+    body = loops[-2] if len(loops) >= 2 else loops[-1]         # what the outer loop does before the inner one runs before every pair as well
     parents: Dict[int, ast.AST] = {}
     for n in ast.walk(body):
         for c in ast.iter_child_nodes(n):
@@ -833,6 +908,27 @@ def operator_rules(repo: Repo, rep, P: str):
             from ..packed import subst_locals
             fn = inline.flatten(repo, ci_owner, fn, sf=modfile)
             calls = [norm(subst_locals(fn, c)) for c in walk_no_nested(fn) if isinstance(c, ast.Call) and norm(c.func).endswith(".connect")]
+            if calls != [call]:
+                # flow-sensitive copies at the top level: `other__a = other; self.parent.connect(other__a, self); other__a = ModuleList(…)`
+                import copy as _copy
+                env_c: Dict[str, str] = {}
+                calls2 = []
+                for st_ in fn.body:
+                    for c in walk_no_nested(st_):
+                        if isinstance(c, ast.Call) and norm(c.func).endswith(".connect"):
+                            c2 = _copy.deepcopy(c)
+                            for m_ in ast.walk(c2):
+                                if isinstance(m_, ast.Name) and m_.id in env_c:
+                                    m_.id = env_c[m_.id]
+                            calls2.append(norm(c2))
+                    if isinstance(st_, ast.Assign) and len(st_.targets) == 1 and isinstance(st_.targets[0], ast.Name) and isinstance(st_.value, ast.Name):
+                        env_c[st_.targets[0].id] = env_c.get(st_.value.id, st_.value.id)
+                    else:
+                        for m_ in ast.walk(st_):
+                            if isinstance(m_, ast.Name) and isinstance(m_.ctx, ast.Store):
+                                env_c.pop(m_.id, None)
+                if calls2 == [call]:
+                    calls = calls2
             if calls == [call]:
                 rep.ok(f"{P}.R5", f"{rel}:{cname}.{op}", call)
             else:
